@@ -8,7 +8,14 @@ pub fn verif_reset() { unsafe { NEXT = 1000 } }
 impl Uuid {
     pub fn new_v4() -> Self { unsafe { NEXT += 1; Uuid::from_u128(NEXT) } }
     pub const fn from_u128(v: u128) -> Self { Uuid { hi: (v >> 64) as u64, lo: v as u64 } }
+    pub const fn nil() -> Self { Uuid { hi: 0, lo: 0 } }
+    pub const fn is_nil(&self) -> bool { self.hi == 0 && self.lo == 0 }
+    pub const fn max() -> Self { Uuid { hi: u64::MAX, lo: u64::MAX } }
+    pub const fn as_u64_pair(&self) -> (u64, u64) { (self.hi, self.lo) }
+    pub const fn from_u64_pair(hi: u64, lo: u64) -> Self { Uuid { hi, lo } }
     pub const fn as_u128(&self) -> u128 { ((self.hi as u128) << 64) | (self.lo as u128) }
 }
 impl serde::Serialize for Uuid { fn serialize<S: serde::Serializer>(&self, s: S) -> Result<S::Ok, S::Error> { s.serialize_u128(self.as_u128()) } }
 impl<'de> serde::Deserialize<'de> for Uuid { fn deserialize<D: serde::Deserializer<'de>>(d: D) -> Result<Self, D::Error> { Ok(Uuid::from_u128(<u128 as serde::Deserialize>::deserialize(d)?)) } }
+impl Default for Uuid { fn default() -> Self { Uuid::nil() } }
+impl std::fmt::Display for Uuid { fn fmt(&self, f: &mut std::fmt::Formatter<'_>) -> std::fmt::Result { f.write_str("uuid") } }
